@@ -77,6 +77,7 @@ def build(tier, seed):
                      "succeeds and its links into A exist", "6 sort options"),
              bd_task("same_names", "A has two modules with a procedure of the same name and two types with equally named components and bindings; B uses the second module: its links "
                      "lead to the second module's entities and never to the namesakes", "1 project pair"),
+             bd_task("hide_undoc", "A documented with hide_undoc (its undocumented public entities have no pages): every link of B into A exists", "1 project pair"),
              bd_task("absolute", "external project given by an absolute local path", "1 project pair"),
              bd_task("remote", "remote external project (urlopen replaced): modules.json fetched from <url>/modules.json and every entity URL is <url>/<relative URL in A>", "4 spellings of the URL")]
     meta = {
